@@ -51,6 +51,7 @@ type Report struct {
 	Wall         time.Duration
 	InitProblems []string
 	PathSigs     map[string]int // distinct observation signatures
+	ForkSites    map[string]int
 }
 
 // Explore runs the entry over all feasible paths (depth-first, re-execution).
@@ -62,7 +63,7 @@ func Explore(prog *ssa.Program, entry *ssa.Function, cfg Config, opts ExploreOpt
 	rep := &Report{
 		Entry: entry.String(), Ends: map[string]int{}, Covers: map[string]int{}, Unsupported: map[string]int{},
 		Bounds: map[string]int{}, Panics: map[string]int{}, Funcs: map[string]int{}, Stubs: map[string]int{},
-		PathSigs: map[string]int{},
+		PathSigs: map[string]int{}, ForkSites: map[string]int{},
 	}
 	var mu sync.Mutex
 	cond := sync.NewCond(&mu)
@@ -177,6 +178,9 @@ func Explore(prog *ssa.Program, entry *ssa.Function, cfg Config, opts ExploreOpt
 		}
 		for k, v := range m.stubsSeen {
 			rep.Stubs[k] += v
+		}
+		for k, v := range m.forkSites {
+			rep.ForkSites[k] += v
 		}
 		for _, p := range m.initProblems {
 			found := false
